@@ -270,6 +270,11 @@ func genC24Subject(t *rapid.T, e *c24Elem) {
 		case 4:
 			raw = []string{"Ünïcode Org", "日本", "Ł-ódź", "a;b", `q\"uote`}[rapid.IntRange(0, 4).Draw(t, "uni")]
 			text = strings.ReplaceAll(raw, `\`, "")
+		case 5:
+			// value ending in an (RFC 4514-escaped) backslash: once the subject
+			// is quoted its last character before the closing quote is a backslash
+			a := c24Word(t, "va")
+			raw, text = a+`\\`, a+`\`
 		default:
 			raw = c24Word(t, "va")
 			text = raw
